@@ -141,7 +141,7 @@ def r2_variants(chk):
             found = ('%s != -1' % b_['part'], '%s >= 0' % b_['part'], '%s > -1' % b_['part'])
             gs1 = [g for c in strip for g in _g(c, fn) if g[0] != 'self.fuzzyMatching']
             gs2 = [g for c in add_ for g in _g(c, fn) if g[0] != 'self.fuzzyMatching']
-            absent = ('%s == -1' % b_['part'], '%s < 0' % b_['part'])
+            absent = ('%s == -1' % b_['part'], '%s < 0' % b_['part'], '%s <= -1' % b_['part'])
 
             def has(g, want):
                 return (g[0] in found and g[1] == want) or (g[0] in absent and g[1] != want)
@@ -699,9 +699,32 @@ def _ancestors(n, stop):
         a = getattr(a, '_parent', None)
 
 
+_INV = {ast.GtE: ast.Lt, ast.Gt: ast.LtE, ast.NotEq: ast.Eq, ast.NotIn: ast.In, ast.IsNot: ast.Is}
+_INV_BACK = {ast.Lt: ast.GtE, ast.LtE: ast.Gt, ast.Eq: ast.NotEq, ast.In: ast.NotIn, ast.Is: ast.IsNot}
+
+
+def _canon_guard(t, b):
+    """one spelling per comparison: `not (a OP b)` is `a inv(OP) b`; >=, >, !=, not in, is not are written as the
+    negation of <, <=, ==, in, is (the polarity of the guard flips)"""
+    import copy
+    if isinstance(t, ast.UnaryOp) and isinstance(t.op, ast.Not) and isinstance(t.operand, ast.Compare) and \
+            len(t.operand.ops) == 1:
+        c = copy.copy(t.operand)
+        op = type(c.ops[0])
+        inv = _INV.get(op) or _INV_BACK.get(op)
+        if inv is not None:
+            c.ops = [inv()]
+            t = c
+    if isinstance(t, ast.Compare) and len(t.ops) == 1 and type(t.ops[0]) in _INV:
+        c = copy.copy(t)
+        c.ops = [_INV[type(t.ops[0])]()]
+        return norm(c), not b
+    return norm(t), b
+
+
 def _g(node, fn):
     from rules import ir
-    return [(norm(t), b) for t, b in ir.guards_of(node, fn)]
+    return [_canon_guard(t, b) for t, b in ir.guards_of(node, fn)]
 
 
 def r12_zip_directory_and_chain(chk):
